@@ -247,7 +247,12 @@ def worker_main(wid, tasklist, skip, san, conn, prog):
                             # compiled = YAML definition, so the model is the odd one out: correspondence broken
                             res['findings'].append(dict(kind='model-diff', what=md, call=call.to_json(), spec=call.spec.name, mode=mode))
                         elif sv in ('out', 'status'):
-                            pass          # already reported as compiled != definition
+                            # compiled != definition is already reported -- except for kernels marked automatic-tests:
+                            # false, where a disagreeing definition alone is treated as unreliable; there the model
+                            # disagreeing TOO (two specifications against the compiled code) is the violation
+                            if not call.spec.kernel.auto:
+                                res['findings'].append(dict(kind='modelspec', what=md + ' (the YAML definition disagrees with the compiled kernel as well)',
+                                                            call=call.to_json(), spec=call.spec.name, mode=mode))
                         else:
                             # no executable definition: the model is the specification
                             res['findings'].append(dict(kind='modelspec', what=md, call=call.to_json(), spec=call.spec.name, mode=mode))
